@@ -146,14 +146,19 @@ def native_repeat(which):
             prod = Product(payoff_underlying=Spot(), payoff=Vanilla(strike=100.0, payoff_type=PayoffType.CALL), maturity=0.5)
             out = {}
             bad = False
-            for seed in (7, 0):
-                vals = []
-                for ambient in (99, 12345):
-                    np.random.seed(ambient)          # whatever the generator state before the run
-                    st = Engine(ConfigurationStandard(mc_paths=50, seed=seed, nb_of_processes=1), LevyProcess(m)).price(prod)
-                    vals.append(float(np.ravel(st.price())[0]))
-                out[f"seed={seed}"] = vals
-                bad = bad or vals[0] != vals[1]
+            from rpylib.product.payoff import PayoffOnTheFly, PayoffDates
+            jt = PayoffOnTheFly(lambda u: float(np.ravel(u)[0]))
+            jt.payoff_dates_type = PayoffDates.STOCHASTIC          # forces the jump-time simulation mode
+            prod_jt = Product(payoff_underlying=Spot(), payoff=jt, maturity=0.5)
+            for tag, pr_, seeds in (("fixed-dates", prod, (7, 0)), ("jump-times", prod_jt, (7,))):
+                for seed in seeds:
+                    vals = []
+                    for ambient in (99, 12345):
+                        np.random.seed(ambient)          # whatever the generator state before the run
+                        st = Engine(ConfigurationStandard(mc_paths=50, seed=seed, nb_of_processes=1), LevyProcess(m)).price(pr_)
+                        vals.append(float(np.ravel(st.price())[0]))
+                    out[f"{tag},seed={seed}"] = vals
+                    bad = bad or vals[0] != vals[1]
             return (bad, {"two_runs_of_the_seeded_standard_engine": out})
         from contracts import mlmc_harness as H
         calls = []
@@ -173,6 +178,146 @@ def native_repeat(which):
         bad = prices[0] != prices[1] or n_calls != 1 or (c.size and c.max() > 1)
         return (bool(bad), {"seeded_multilevel_prices_of_two_runs": prices, "np.random.seed_calls_per_run": n_calls,
                             "largest_multiplicity_of_a_fine_payoff_value_in_one_run": int(c.max()) if c.size else 0})
+
+
+class DrawsAreGlobal(Lemma):
+    """the library's random draws reach the generators that initialisation_seed seeds: the real bodies of the jump-time
+    sampler, the uniform source, the HEM / Merton jump sizes and the on-the-fly diffusion draw are executed with numpy's
+    module-level random functions as ledger events; a draw from any generator OBJECT (np.random.default_rng(), RandomState,
+    random.Random instance) is a separate event and must not occur."""
+    prop = "C08"
+    cases = ("jump-times", "uniform", "hem-jumps", "merton-jumps", "diffusion")
+
+    def __init__(self):
+        self.name = "property:draws-come-from-the-seeded-global-generators"
+
+    def prove(self, vc, case):
+        nm = f"{self.name}[{case}]"
+        it = vc.interp
+        log = []
+
+        def draw(kind, shape_arg="size"):
+            def f(it_, *a, **k):
+                n = k.get("size", a[-1] if a else 1)
+                n = int(n) if not isinstance(n, tuple) else int(np.prod(n))
+                log.append(("global", kind))
+                return np.array([vc.fresh(kind, "r") for _ in range(n)], dtype=object)
+            return f
+        it.native_hooks = {id(getattr(np.random, fn)): draw(fn) for fn in ("random_sample", "random", "uniform", "normal", "standard_normal", "exponential", "poisson")}
+        it.private_rng = lambda o, name, a, k: log.append(("private", f"{type(o).__name__}.{name}")) or np.array([vc.fresh("private", "r") for _ in range(int(k.get("size", a[0] if a else 1)))], dtype=object)
+        if case == "jump-times":
+            fn = it.get_function("rpylib.process.levyprocess:LevyProcess.jump_times_from_nb_of_jumps")
+            dt = vc.real("dt")
+            vc.assume(dt > 0)
+            it.call(fn, [dt, 1], {})
+        elif case == "uniform":
+            u = vc.new("rpylib.distribution.univariate.uniform:Uniform")
+            vc.method(u, "sample", 2)
+        elif case in ("hem-jumps", "merton-jumps"):
+            if case == "hem-jumps":
+                par = vc.obj("rpylib.model.levymodel.mixed.hem:HEMParameters", p=vc.real("p"), eta1=vc.real("eta1"), eta2=vc.real("eta2"))
+                vc.assume(And(par.fields["p"] > 0, par.fields["p"] < 1, par.fields["eta1"] > 0, par.fields["eta2"] > 0))
+                m = vc.obj("rpylib.model.levymodel.mixed.hem:HEMModel", parameters=par)
+            else:
+                par = vc.obj("rpylib.model.levymodel.mixed.merton:MertonParameters", mu_j=vc.real("mu_j"), sigma_j=vc.real("sigma_j"))
+                vc.assume(par.fields["sigma_j"] > 0)
+                m = vc.obj("rpylib.model.levymodel.mixed.merton:MertonModel", parameters=par)
+            try:
+                vc.method(m, "jump_increment", 2)
+            except (Unsupported, PyRaise):
+                pass                    # what is computed FROM the draws is not this lemma's business
+        else:
+            it.hooks["rpylib.model.levymodel.levymodel:LevyModel.diffusion_coefficient"] = lambda it_, f, b: vc.real("sigma")
+            proc = vc.obj("rpylib.process.levyprocess:LevyProcess", model=vc.obj("rpylib.model.levymodel.levymodel:LevyModel"))
+            sim = vc.obj("rpylib.process.levyprocess:SimulationWithJumpTimes", process=proc)
+            vc.method(sim, "simulate_diffusion", np.array([vc.real("s1"), vc.real("s2")], dtype=object))
+        vc.check(nm + "::at-least-one-draw", len(log) >= 1)
+        vc.check(nm + "::no-draw-from-a-generator-the-seeding-does-not-reach", all(e[0] == "global" for e in log))
+
+    def replay(self, model, clause, case):
+        return native_repeat("standard")
+
+
+class FakePool:
+    """abstraction of a worker pool for the ledger: `processes` workers, each runs the initializer once, the tasks are dealt
+    round-robin, the callback receives all results"""
+
+    def __init__(self, interp, log, processes=None, initializer=None, **kw):
+        self.interp, self.log, self.n, self.initializer = interp, log, processes or 2, initializer
+
+    def __enter__(self):
+        return self
+
+    def __exit__(self, *a):
+        return False
+
+    def map_async(self, fn, iterable, callback=None, **kw):
+        it = self.interp
+        for w in range(self.n):
+            self.log.append(("worker-start", w))
+            if self.initializer is not None:
+                it.call(self.initializer, [], {})
+        res = []
+        for k, x in enumerate(it.iterate(iterable)):
+            self.log.append(("task", k % self.n))
+            res.append(it.call(fn, [x], {}))
+        if callback is not None:
+            it.call(callback, [res], {})
+        pool = self
+
+        class R:
+            def get(self_inner, *a, **k):
+                return res
+        return R()
+
+
+class PoolSeeding(Lemma):
+    """worker-pool branch of both engines (real bodies, the pool replaced by a ledger abstraction): every worker runs the
+    initializer once before its first task, and the initializer seeds with the multiprocessing flag SET, whatever seed is
+    configured -- so that no two workers start from the configured seed (seed-semantics lemma: the flag selects the
+    process- and time-dependent value)."""
+    prop = "C08"
+    cases = ("standard", "multilevel")
+
+    def __init__(self):
+        self.name = "property:worker-pool-seeding"
+
+    def prove(self, vc, which):
+        nm = f"{self.name}[{which}]"
+        it = vc.interp
+        log = []
+        if which == "standard":
+            eng, product = standard_engine(vc, log, mc_paths=3)
+            eng.fields["configuration"].fields["nb_of_processes"] = 2
+        it.opaque_hooks = dict(getattr(it, "opaque_hooks", None) or {})
+        it.opaque_hooks["pathos.multiprocessing.Pool"] = lambda it_, *a, **k: FakePool(it_, log, *a, **k)
+        it.opaque_hooks["tqdm.tqdm"] = lambda it_, x, *a, **k: x
+        if which == "standard":
+            vc.method(eng, "price", product)
+        else:
+            ev = lambda e: log.append(e)
+            it.hooks[CF + "Configuration.initialisation_seed"] = lambda it_, f, b: ev(("seed", b.get("multiprocessing", False)))
+            for fq in ("rpylib.montecarlo.path:MLMCPath.process", "rpylib.montecarlo.path:MLMCPath.process_l0", "rpylib.montecarlo.path:MCPath.discount", "rpylib.montecarlo.path:MCPath.set_to_path",
+                       "rpylib.montecarlo.statistic.statistic:MLMCStatistics.add", "rpylib.product.product:NoControlVariates.compute_coefficients_mlmc"):
+                it.hooks[fq] = lambda it_, f, b: None
+            CP = "rpylib.process.coupling.couplingmarkovchain:CouplingMarkovChain"
+            it.hooks[CP + ".simulate_one_path_with_coupling"] = lambda it_, f, b: ev(("draw", "coupled")) or "p"
+            cfg = vc.obj(CF + "ConfigurationMultiLevel", nb_of_processes=2, control_variates=vc.obj("rpylib.product.product:NoControlVariates"), seed=vc.int("seed"))
+            pm = vc.obj("rpylib.montecarlo.path:MLMCPath")
+            stats = vc.obj("rpylib.montecarlo.statistic.statistic:MLMCStatistics", mc_statistics=[None, None])
+            eng = vc.obj(ME + "Engine", configuration=cfg, path_managers=[pm, pm])
+            vc.method(eng, "compute_level_l", 1, 0, 3, vc.obj(CP), vc.obj("rpylib.product.product:Product"), 1.0, stats)
+        starts = [i for i, e in enumerate(log) if e[0] == "worker-start"]
+        seeds = [e for e in log if e[0] == "seed"]
+        first_task = next((i for i, e in enumerate(log) if e[0] == "task"), len(log))
+        worker_seeds = [e for i, e in enumerate(log) if e[0] == "seed" and starts and i > starts[0]]
+        vc.check(nm + "::two-workers-started", len(starts) == 2)
+        vc.check(nm + "::every-worker-seeds-once-before-the-first-task", len(worker_seeds) == 2 and all(i < first_task for i, e in enumerate(log) if e in worker_seeds))
+        vc.check(nm + "::workers-seed-with-the-multiprocessing-flag-set", all(bool(e[1]) is True and not is_sym(e[1]) for e in worker_seeds))
+
+    def replay(self, model, clause, which):
+        bad, info = RepeatabilityBattery.pool(seed=5, model="hem")
+        return (bad, info)
 
 
 class MultilevelLevelRoutine(Lemma):
@@ -257,7 +402,7 @@ class MultilevelSeedsOnce(Lemma):
         return native_repeat("multilevel")
 
 
-UNITS = [SeedSemantics(), StandardEngineSeedOrder(), MultilevelLevelRoutine(), MultilevelSeedsOnce()]
+UNITS = [SeedSemantics(), StandardEngineSeedOrder(), MultilevelLevelRoutine(), MultilevelSeedsOnce(), PoolSeeding(), DrawsAreGlobal()]
 ASSUMPTIONS = ["a seeded generator is a deterministic function of the seed and of the number of draws made since (numpy / random contract)",
                "simulate_one_path / pre_computation are the only consumers of the global generators (draws inside them are one ledger event)"]
 TRUSTED_BASE = ["pyvc interpreter (ledger events are produced by hooks on the real call sites)", "z3 5.1"]
@@ -283,10 +428,14 @@ class RepeatabilityBattery:
         bad, info = self.pool()
         if bad:
             viol.append({"obligation": f"{self.name}::worker-pool-samples-share-no-pre-drawn-variates", "bounded": self.name, "witness": info})
+        ev += 1
+        bad, info = self.pool(seed=5, model="hem")
+        if bad:
+            viol.append({"obligation": f"{self.name}::worker-pool-with-a-configured-seed:workers-draw-different-variates", "bounded": self.name, "witness": info})
         return {"name": self.name, "evaluations": ev, "distinct_nontrivial": ev, "violations": viol, "samples": [], "bound": "3 scripted runs (see docstring)"}
 
     @staticmethod
-    def pool():
+    def pool(seed=None, model="bs"):
         import warnings
         with warnings.catch_warnings():
             warnings.simplefilter("ignore")
@@ -298,15 +447,19 @@ class RepeatabilityBattery:
             from rpylib.product.product import Product
             from rpylib.product.underlying import Spot
             from rpylib.product.payoff import PayoffOnTheFly
-            m = create_exponential_of_levy_model(ModelType.BLACKSCHOLES)(spot=100.0, r=0.02, d=0.0, sigma=0.2)
+            if model == "bs":
+                m = create_exponential_of_levy_model(ModelType.BLACKSCHOLES)(spot=100.0, r=0.02, d=0.0, sigma=0.2)
+            else:
+                # pure-jump-dominated HEM: the jump values are drawn on the fly in the workers (not pre-drawn)
+                m = create_exponential_of_levy_model(ModelType.HEM)(spot=100.0, r=0.02, d=0.0, sigma=0.0, intensity=20.0)
             prod = Product(payoff_underlying=Spot(), payoff=PayoffOnTheFly(lambda u: u), maturity=0.5)
             try:
-                st = Engine(ConfigurationStandard(mc_paths=40, seed=None, nb_of_processes=2), LevyProcess(m)).price(prod)
+                st = Engine(ConfigurationStandard(mc_paths=40, seed=seed, nb_of_processes=2), LevyProcess(m)).price(prod)
             except Exception as e:
                 return (False, {"skipped": f"worker pool not available here: {type(e).__name__}"})
             rows = np.ravel(st._payoff_statistics.stats)
             u, c = np.unique(np.round(rows, 12), return_counts=True)
-            return (bool(c.max() > 1), {"model": "Black-Scholes", "worker_processes": 2, "paths": 40, "distinct_payoffs": int(len(u)), "largest_multiplicity": int(c.max())})
+            return (bool(c.max() > 1), {"model": model, "configured_seed": seed, "worker_processes": 2, "paths": 40, "distinct_payoffs": int(len(u)), "largest_multiplicity": int(c.max())})
 
     def replay(self, rec):
         r = self.run("quick", 0)
